@@ -52,7 +52,7 @@ func (C07) New() any { return &C07Scenario{} }
 
 func (C07) Gen(t *tape.Tape, tier string) any {
 	sc := &C07Scenario{}
-	shapes := []gen.Shape{gen.ShapeFlat, gen.ShapeNested, gen.ShapeLogical}
+	shapes := []gen.Shape{gen.ShapeFlat, gen.ShapeNested, gen.ShapeLogical, gen.ShapeDyn, gen.ShapeGen}
 	sc.Subject = []string{"writer", "reset", "rowgroup-buffer", "rowgroup-file"}[t.Weighted(4, 2, 2, 3)]
 	sc.Plan = GenWritePlan(t, shapes, 1200)
 	sh := gen.ShapeByName(sc.Plan.Shape)
